@@ -150,3 +150,22 @@ def fmt_constants(i: int) -> bool:
     same = same and {k: v for k, v in core.DEFAULT_SETTINGS.items()} == {k: v for k, v in gcore.DEFAULT_SETTINGS.items()} and core.METADATA == gcore.METADATA
     same = same and {k: v['init'] for k, v in core.EVICTION_POLICY.items()} == {k: v['init'] for k, v in gcore.EVICTION_POLICY.items()}
     return same
+
+
+JSON_FMT = [None, True, 0, -2 ** 70, 1.5, '', 'a', 'caf\xe9', '\u6771\u4eac', '\U0001f600 smile', '\x00\r\n', '\u2028\x85', ['na\xefve', 7], {'city': '\u6771\u4eac'}, {'k': [1, {'z': 'y'}]}, 'x' * 40]
+
+
+def fmt_json(i: int, level: int, thr: int) -> bool:
+    """
+    pre: 0 <= i < 16 and 0 <= level <= 2 and 0 <= thr <= 64
+    post: _
+    """
+    # JSONDisk: keys and values are serialized to the same bytes (same database key, same routing hash, same mode / size /
+    # inline-vs-file decision, same file bytes) as by the frozen baseline, and what the baseline wrote is read back
+    v = pick(JSON_FMT, i)
+    lv = pick([0, 1, 9], level)
+    core, fs, gcore, gfs, root = _pair()
+    a, b = core.JSONDisk(root, compress_level=lv, min_file_size=thr), gcore.JSONDisk(root, compress_level=lv, min_file_size=thr)
+    (ka, ra), (kb, rb) = a.put(v), b.put(v)
+    ok = bytes(ka) == bytes(kb) and ra == rb and a.hash(v) == b.hash(v) and a.get(kb, rb) == v
+    return ok and _same_store(a, fs, b, gfs, root, v)
